@@ -76,6 +76,16 @@ func TestCheck(t *testing.T) {
 		rt.Case()
 		kind := limgen.Kinds[r.IntN(4)]
 		spec := limgen.Gen(r, kind, limgen.Opts{NoProbe: true})
+		if (kind == "gradient" || kind == "gradient2") && r.IntN(6) == 0 {
+			// "give me the default" minimum (0) together with a queue allowance that is 0 for small limits: the
+			// minimum is then the only thing that keeps the estimate at or above 1
+			spec.Min = 0
+			spec.QueueKind, spec.QueueArg = []string{"fixed", "tenth"}[r.IntN(2)], 0
+			if kind == "gradient2" && spec.Max < 4 {
+				spec.Max = 4 // Gradient2's default minimum
+			}
+			rt.Count("cases_default_minimum_and_zero_queue_allowance", 1)
+		}
 		inner := spec.New(nil, "c04")
 		w := wrappers[r.IntN(len(wrappers))]
 		l, wcfg := wrap(w, inner, r)
